@@ -163,7 +163,7 @@ func TestVerif_C28_DepositScript(t *testing.T) {
 	r.SetRule("PRNG deposits (depositor, blinding factor, extra data present/absent, fresh wallet/refund/third keys, refund locktime from both BIP-65 classes, class boundaries, 0x7fffffff, and encodings that are not minimal positive script numbers), locked behind P2SH or P2WSH; spends by the wallet key (random locktime/sequence), by the refund key over {L-1, L, L+1, 0, other class, 0xffffffff} x sequence {0, 0xfffffffe, 0xffffffff}, by a third key, and with mismatched signature/public key. non-trivial = spend attempt by refund or third key, or deposit with extra data")
 	r.Assume("btcd v0.22.3 txscript engine is the reference interpreter (StandardVerifyFlags; for locktime encodings that are non-minimal the same flags without MINIMALDATA, i.e. consensus behaviour). Refund-spendability is asserted only where the 4-byte locktime is a positive script number (Bitcoin cannot satisfy CHECKLOCKTIMEVERIFY with a negative operand)")
 	consensusLike := txscript.StandardVerifyFlags &^ txscript.ScriptVerifyMinimalData
-	n := r.N(2000, 100000)
+	n := r.N(2000, 40000)
 	verifkit.Parallel(n, 0, func(i int) {
 		rng := r.SubRand("deposit", i)
 		wallet, refund, third := c26kitNewKey(rng), c26kitNewKey(rng), c26kitNewKey(rng)
